@@ -437,6 +437,9 @@ func visualizeMonitor(c *Ctx) []Violation {
 			vs = append(vs, Violation{Rule: "C19/can-visualize-error", Detail: fmt.Sprintf("%s => %s: CanVisualizeError=%v, want %v", st.Op, st.V.Class(), st.V.CanVis, want)})
 		}
 	}
+	if c.Run.ObsFault != "" {
+		vs = append(vs, Violation{Rule: "C19/visualize-failed", Detail: "an observation between operations panicked: " + c.Run.ObsFault})
+	}
 	if st.Op.Kind != h.OpVisualize {
 		return vs
 	}
@@ -507,9 +510,10 @@ func c19Units(tier string) []Unit {
 	if !q {
 		d, b = 7, explore.Budget{Provides: 4, Invokes: 2, Others: 1, Rejected: 1}
 	}
+	observe := false
 	add := func(name string, plans map[string][]u.Beh, prefix []Op, a alpha, rec bool) {
 		ops := append(a.ops(), visPlain, visErr)
-		units = append(units, Unit{Sc: &Scenario{Name: name, Cfg: h.Config{Recover: rec}, Plans: plans, Prefix: prefix, Alphabet: ops, Depth: d, Budget: b,
+		units = append(units, Unit{Sc: &Scenario{Name: name, Cfg: h.Config{Recover: rec, Observe: observe}, Plans: plans, Prefix: prefix, Alphabet: ops, Depth: d, Budget: b,
 			Allowed: declOnce, Monitors: []explore.Monitor{visualizeMonitor}}})
 	}
 	D := u.D
@@ -545,6 +549,19 @@ func c19Units(tier string) []Unit {
 	deepGroups := alpha{scopes: []int{0, 1}, ctors: []*uFunc{D("DGb"), D("DG2"), D("DCg"), D("DBe"), D("DAe")}, invokes: []*uFunc{iG, iC}}
 	add("missing-types/group-member-deps", nil, prefixChild, deepGroups, false)
 	add("fault-groups/member-dep-fails", map[string][]u.Beh{"DBe": {u.BehErr}}, prefixChild, deepGroups, true)
+	// the same histories with a Visualize (plain and with the latest error)
+	// and a String after every single operation: a picture never depends on
+	// pictures taken earlier
+	observe = true
+	add("observed-every-step/three-scopes-chain", nil, prefixChain, tree, false)
+	add("observed-every-step/result-shapes", nil, prefixChild, shapes, false)
+	add("observed-every-step/fault-chain/DBe=err", map[string][]u.Beh{"DBe": {u.BehErr}}, prefixChild, chain, true)
+	if !q {
+		add("observed-every-step/three-scopes-fork", nil, prefixFork, tree, false)
+		add("observed-every-step/param-shapes", nil, prefixChild, params, false)
+		add("observed-every-step/fault-groups/DCge=err", map[string][]u.Beh{"DCge": {u.BehErr}}, prefixChild, groups, true)
+		add("observed-every-step/rejected-by-cycle", nil, prefixChild, rings, false)
+	}
 	return units
 }
 
